@@ -237,6 +237,10 @@ static size_t input_fn(void * state, soxr_in_t * data, size_t req)
   sprintf(tmp, "%zu", req); rle_add(&reqlog, tmp);
   if (fn_buf) { free_input(fn_buf, fn_free); fn_buf = 0; }
   if (tok[0] == 'f') { *data = 0; rle_add(&usedlog, "f"); return 0; }
+  if (tok[0] == 'F') {   /* failure reported with a non-zero count (a partial read followed by a stream error): soxr.h makes the NULL
+                          * data pointer the failure signal, whatever the count says.  Same answer "f" for the model. */
+    n = (size_t)strtoull(tok + 1, 0, 10); if (n > req) n = req;
+    *data = 0; rle_add(&usedlog, "f"); return n; }
   if (tok[0] == 'd') { n = (size_t)strtoull(tok + 1, 0, 10); if (n > req) n = req; if (n > limitN - pos) n = (size_t)(limitN - pos); }
   if (!n) { *data = &S; rle_add(&usedlog, "e"); return 0; }
   fn_buf = make_input(n, &fn_free);
